@@ -146,6 +146,11 @@ def perform(op, stack_in, outdir, variant, rng):
                 fh.write("".join("%d\n" % i for i in idx))
         else:
             arg = idx
+        if isinstance(arg, np.ndarray) and variant % 8 < 4:
+            # the caller keeps using its own index array: a first call with the very same object must not change
+            # what "the requested indices" are for the call that is judged (seeded change C15a: in-place `-= 1`)
+            kw0 = {k: v for k, v in kw.items() if k != "output_file"}
+            tiltstack.remove_tilts(stack_in, arg, numbered_from_1=(op["base"] == 1), **kw0)
         if op["base"] == 1 and variant % 2:
             ret = tiltstack.remove_tilts(stack_in, arg, **kw)                 # numbered_from_1 defaults to True
         else:
